@@ -210,6 +210,54 @@ func runC13(c *Ctx) {
 		}
 		c.Check(okC, "R2.passthrough", "server.AddHardCert arm|comment from the request", w.Pos(cv.Pos()), "msg.Comment (or none in the old format)", "the comment handed to the agent is not the request's: "+w.Short(cv.Call.Args[1]))
 	}
+	// the add-hardware-certificate arm gives up (ends the connection) only after BOTH encodings failed to parse
+	{
+		f := w.Facts(serve)
+		var legacy *ssa.Call
+		var newfmt *ssa.Call
+		for _, call := range callsIn(serve) {
+			cv, ok := call.(*ssa.Call)
+			if !ok {
+				continue
+			}
+			switch calleeName(cv) {
+			case "golang.org/x/crypto/ssh.ParsePublicKey":
+				if w.Expr(cv.Call.Args[0]) == req+"[const(1):]" {
+					legacy = cv
+				}
+			case "golang.org/x/crypto/ssh.Unmarshal":
+				if w.Expr(cv.Call.Args[0]) == req && strings.Contains(strip(cv.Call.Args[1]).Type().String(), "agentAddHardCertReq") {
+					newfmt = cv
+				}
+			}
+		}
+		if legacy == nil || newfmt == nil {
+			c.Bad("R2.passthrough", "server.AddHardCert arm|both wire formats decoded", w.FnPos(serve), "the arm no longer decodes both the bare-key and the key+comment encodings")
+		} else {
+			lerr := extractOf(legacy, 1)
+			for _, r := range liveReturns(serve) {
+				// error returns inside this arm: those that know the new-format decode (or its inner key parse) failed
+				inArm := false
+				if n, k := f.KnownNil(r.Block(), ssa.Value(newfmt)); k && !n {
+					inArm = true
+				}
+				for l := range f.At(r.Block()) {
+					if y, isNil, ok := nilTest(l); ok && !isNil {
+						if ex, ok := throughCell(strip(y)).(*ssa.Extract); ok {
+							if pc, ok := ex.Tuple.(*ssa.Call); ok && calleeName(pc) == "golang.org/x/crypto/ssh.ParsePublicKey" && strings.HasSuffix(w.Expr(pc.Call.Args[0]), ".KeyBlob") {
+								inArm = true
+							}
+						}
+					}
+				}
+				if !inArm {
+					continue
+				}
+				n, k := f.KnownNil(r.Block(), lerr)
+				c.Check(k && !n, "R2.passthrough", "server.AddHardCert arm|gives up only after both encodings failed", w.Pos(r.Pos()), "must-fact: the bare-key parse failed too", "the arm ends the connection because the key+comment decode failed without having tried the bare-key encoding (some keys in the old format are misread as the new one)")
+			}
+		}
+	}
 	// encoded results: for each response struct alloc in ServeAgent, the field stores
 	for _, b := range serve.Blocks {
 		for _, ins := range b.Instrs {
@@ -278,6 +326,7 @@ func runC13(c *Ctx) {
 	// ---- R4 ----
 	if fn := w.methodOfNamed(server, "ListSlots"); fn != nil && fn.Blocks != nil {
 		f := w.Facts(fn)
+		c.BoundsFns[fn.String()] = true
 		reportSites(c, "R4.bounds", w.BoundsObligations([]*ssa.Function{fn}, nil))
 		nApp := 0
 		for _, call := range callsIn(fn) {
